@@ -520,6 +520,6 @@ pub fn run(tier: Tier, seed: u64) -> i32 {
             "distance and resolution compared to 1e-12 relative, everything else bit for bit",
             "component operations themselves are judged by C09-C12, not here",
         ],
-        json!({"layouts": layouts.len(), "se_settings": se_jobs.len(), "exhaustive_layouts": tier == Tier::Thorough}),
+        json!({"miri": ctx.fold_miri_summary(), "layouts": layouts.len(), "se_settings": se_jobs.len(), "exhaustive_layouts": tier == Tier::Thorough}),
     )
 }
